@@ -18,7 +18,7 @@ def findings():
 
 def seeded():
     out = ["| seeded change | property | what it changes | needs to manifest | caught by |", "|---|---|---|---|---|"]
-    n = caught = 0
+    n = caught = own = 0
     for d in sorted(glob.glob(os.path.join(V, "seeded", "*"))):
         if not os.path.isdir(d):
             continue
@@ -31,6 +31,8 @@ def seeded():
             hit = [p for p, r in res["results"].items() if r["exit"] == 1]
             if hit:
                 caught += 1
+                if m.get("property") in hit:
+                    own += 1
                 first = res["results"][hit[0]]["first"]
                 clause = re.search(r"\((.*?);", first)
                 by = ", ".join(hit) + (": " + clause.group(1)[:110] if clause else "")
@@ -40,7 +42,7 @@ def seeded():
             return str(x or "").replace("|", "\\|").replace("\n", " ")[:260]
         out.append("| %s | %s | %s | %s | %s |" % (os.path.basename(d), m.get("property", ""), cell(m.get("title") or m.get("what_it_breaks")), cell(m.get("needs_to_manifest")), cell(by)))
     out.append("")
-    out.append("%d seeded changes kept (each confirmed by the lead: demo passes without / fails with the change, the repository's suite passes with it); %d caught by the check of their property." % (n, caught))
+    out.append("%d seeded changes kept (each confirmed by the lead: demo passes without / fails with the change, the repository's suite passes with it); %d are reported by the registered checks: %d by the check of their own property, %d only by the check of a neighbouring property (the property they break in the first place)." % (n, caught, own, caught - own))
     return "\n".join(out)
 
 def index():
